@@ -160,6 +160,9 @@ class Fn:
             elif k == "call" and n.get("cname") in ("move", "forward", "ref", "cref", "as_const") \
                     and n.get("callee", "").startswith("std::") and len(n.get("args", [])) == 1:
                 i = n["args"][0]
+            elif k == "call" and "recv" in n and n.get("ccls") == "std::reference_wrapper" and \
+                    n.get("cname", "").startswith("operator "):
+                i = n["recv"]       # implicit reference_wrapper<T> -> T& conversion
             elif k == "other" and len(n.get("kids", [])) == 1 and n.get("cls") in (
                     "CXXFunctionalCastExpr", "CXXStdInitializerListExpr"):
                 i = n["kids"][0]
